@@ -437,7 +437,7 @@ def tape_for(first, N, seed, total=600):
     stream = hashlib.shake_128(b"c18" + seed).digest(total)
     if first == "rand":
         return stream
-    v = {"0": 0, "1": 1, "N-1": N - 1, "N": N, "N+1": N + 1, "ones": (1 << (8 * nb)) - 1}[first] & ((1 << (8 * nb)) - 1)
+    v = {"0": 0, "1": 1, "N-1": N - 1, "N": N, "N+1": N + 1, "N+2": N + 2, "N+3": N + 3, "ones": (1 << (8 * nb)) - 1}[first] & ((1 << (8 * nb)) - 1)
     return v.to_bytes(nb, "big") + stream
 
 
@@ -724,7 +724,23 @@ def run_spy(case, rec):
     rec.sample({"op": case["op"], "first": case["first"], "draws": [(n, v.bit_length()) for n, lo, hi, v in seen][:4]})
 
 
+def cases_consumer_boundary(tier, shard, nshards):
+    """Every NIST curve x every boundary tape for the three rejection-sampling consumers (systematic, not sampled)."""
+    out = []
+    for first in ["0", "1", "N-1", "N", "N+1", "N+2", "N+3", "ones", "rand"]:
+        for curve in NIST:
+            out.append({"which": "ecc_generate", "curve": curve, "seed": b"boundary" , "first": first, "msg": b"m"})
+            out.append({"which": "ecdsa_nonce", "curve": curve, "seed": b"boundar2", "first": first, "msg": b"m"})
+        out.append({"which": "dsa_nonce", "curve": "p256", "seed": b"boundar3", "first": first, "msg": b"m"})
+        for curve in ["ed25519", "ed448", "curve25519", "curve448"]:
+            if first in ("0", "ones", "rand"):
+                out.append({"which": "ecc_generate", "curve": curve, "seed": b"boundar4", "first": first, "msg": b""})
+    return [c for i, c in enumerate(out) if i % nshards == shard]
+
+
 CHECKS = [
+    Check("consumer_boundary", run=run_consumer, cases=cases_consumer_boundary, shards=(8, 8), exhaustive=False,
+          rule="every NIST curve x every boundary tape (0, 1, N-1, N, N+1, N+2, N+3, all-ones) for ECC.generate and FIPS ECDSA/DSA nonces"),
     Check("exhaustive", run=run_exh, cases=cases_exh, shards=(16, 16), exhaustive=True,
           rule="all first-attempt tapes enumerated per sampler call; equal pre-image count for every value of the range"),
     Check("boundary", run=run_boundary, strategy=strat_boundary, examples=(3000, 80000), shards=(2, 8),
